@@ -498,14 +498,14 @@ func init() {
 		return p
 	}
 
-	planTable["C31"] = lsmPlan("Merge operator with string concatenation (order- and loss-revealing) on the real DB: Add, the operator's periodic merge compaction as an explicit transition, flushes, every picker compaction, close/re-open with a new operator, optionally writes to a neighbouring key; after every transition MergeOperator.Get must equal the concatenation of all added values in Add order, and ErrKeyNotFound before the first Add.",
+	planTable["C31"] = lsmPlan("Merge operator with string concatenation (order- and loss-revealing) on the real DB: Add, the operator's periodic merge compaction as an explicit transition, flushes, every picker compaction, close/re-open with a new operator, optionally writes to a neighbouring key; after every transition MergeOperator.Get must equal the concatenation of all added values in Add order, and ErrKeyNotFound before the first Add. A merge function that returns one of its arguments (a maximum) over 2 / 90 / 101 / 150 un-merged Adds, the largest at every boundary position.",
 		stateRule,
-		[]Stage{bfs("merge", 8, 70, prm("l0_tables", 1, "keys", 1)),
+		[]Stage{en("c31alias", 4, 20, nil), bfs("merge", 8, 70, prm("l0_tables", 1, "keys", 1)),
 			// the merge key already in the base level, then overlapping L0 tables of which the newest ends before the merge key and an older one reaches past it
 			bfs("merge", 7, 60, prm("l0_tables", 2, "keys", 1, "other", true, "ops", "MA SZ Sa F C0"), seq("MA F MA F C0")),
 			// added values in the value log, value-log GC rewriting them (the rewritten entry must stay a merge entry)
 			bfs("merge", 8, 50, prm("l0_tables", 1, "keys", 1, "gc", true, "big", true, "vlog_max_entries", 1, "ops", "MB F G C0"))},
-		[]Stage{bfs("merge", 8, 900, prm("l0_tables", 1, "keys", 1)), bfs("merge", 7, 600, prm("l0_tables", 2, "keys", 1, "other", true, "nvk", 2)), bfs("merge", 9, 600, prm("l0_tables", 1, "keys", 1, "gc", true, "big", true, "vlog_max_entries", 1, "ops", "MA MB MC F G C0 R"))})
+		[]Stage{en("c31alias", 4, 60, nil), bfs("merge", 8, 900, prm("l0_tables", 1, "keys", 1)), bfs("merge", 7, 600, prm("l0_tables", 2, "keys", 1, "other", true, "nvk", 2)), bfs("merge", 9, 600, prm("l0_tables", 1, "keys", 1, "gc", true, "big", true, "vlog_max_entries", 1, "ops", "MA MB MC F G C0 R"))})
 
 	planTable["C32"] = func(q bool) *Plan {
 		p := &Plan{Level: "model_checking", Engine: "E-enum + E-sched",
